@@ -552,7 +552,9 @@ class TeX(object):
         iterator = self.itertokens()
 
         for t in iterator:
-            name = getattr(t, 'macroName', '') or ''
+            # A token that a look-ahead (e.g. of readInteger) has already
+            # expanded and pushed back is an element without macroName
+            name = getattr(t, 'macroName', '') or getattr(t, 'nodeName', '') or ''
             if name == 'newif':
                 cases[-1].append(t)
                 cases[-1].append(next(iterator))
